@@ -224,7 +224,7 @@ def load_module(name, path, register=True, inject=None):
   return mod
 
 
-def outcome(fn, *args, **kwargs):
+def outcome(fn, /, *args, **kwargs):
   """('ok', value) or ('exc', exception type name)."""
   try:
     return ('ok', fn(*args, **kwargs))
